@@ -526,6 +526,17 @@ func vrtDecodedFaithfully(data string, v interface{}) bool {
 	}
 }
 
+// vrtLegalASCII: TAB, LF, CR and the printable ASCII characters (a subset of the legal XML characters).
+func vrtLegalASCII(s string) bool {
+	for i := 0; i < len(s); i++ {
+		c := s[i]
+		if !(c == '\t' || c == '\n' || c == '\r' || c >= 0x20 && c < 0x7f) {
+			return false
+		}
+	}
+	return true
+}
+
 func vrtXMLDocs(body string) int {
 	d := xml.NewDecoder(strings.NewReader(body))
 	d.Strict = false
